@@ -411,8 +411,8 @@ func main() {
 			runHist(c.Hist, c.Kind, st, mk(c.Kind, c.Hist))
 			return
 		}
-		n := r.N(300, 20000)
-		nlong := r.N(4, 100)
+		n := r.N(160, 20000)
+		nlong := r.N(2, 100)
 		total := 2*n + nlong
 		perOp := map[string]int{}
 		perBand := map[string]int{}
